@@ -403,6 +403,10 @@ def h_passthrough():
 
 E2E_UNTIL = ['-[] p', '-<> p', 'p S q', '-X p', '--X q', r'-[] (p => -<> q)', r'(-X false) \/ -<> (p S q)']
 
+# previous applied to a next-state operand and the other way round (the trace
+# of length L + 1 gives the value read by the next operator at position L - 1)
+E2E_NEXT = ["-X (p')", "--X (p')", "-X (X p)", "(-X p)'", "(--X p)'", r"(-X (p' /\ q))", r"(p S (q'))", "-[] (p')", r"-<> (X q) /\ --X (q')"]
+
 E2E = [
     '-X false', '-X False', '--X true', '--X True', '-X true', '--X false',
     r'(-X false) /\ p', 'false S p', 'p S True',
@@ -446,7 +450,7 @@ def h_translate_e2e(formula, L, until=False):
         import itertools
         dvars, r, init, trans, win = past.translate(formula, until=until)
         names = ['p', 'q'] + list(dvars)
-        vals = {nm: [z3.Bool(f'{nm}@{i}') for i in range(L + 1)]
+        vals = {nm: [z3.Bool(f'{nm}@{i}') for i in range(L + 3)]
                 for nm in names}
 
         class F:
@@ -481,8 +485,8 @@ def h_translate_e2e(formula, L, until=False):
                     status=st, trace=w))
         # a solution exists for every input trace
         n_eval += 1
-        inputs = [vals[nm][i] for nm in ('p', 'q') for i in range(L + 1)]
-        last = [vals[nm][L] for nm in dvars]
+        inputs = [vals[nm][i] for nm in ('p', 'q') for i in range(L + 3)]
+        last = [vals[nm][k] for nm in dvars for k in range(L, L + 3)]
         ex = z3.ForAll(inputs, z3.Exists(aux + last, z3.And(*facts))) \
             if (aux + last) else z3.And(*facts)
         st, _, _, _ = eng.check_sat([z3.Not(ex)])
